@@ -70,4 +70,7 @@ VerdictRegionLemma ==
      \A s \in Mentioned(bst) :
         /\ StateMustReject(bst.trans[s], bst.dflt[s], StateReps(bst.trans[s])) = StateMustReject(bst.trans[s], bst.dflt[s], 0..MaxChar)
         /\ StateMustAccept(bst.trans[s], bst.dflt[s], StateReps(bst.trans[s])) = StateMustAccept(bst.trans[s], bst.dflt[s], 0..MaxChar)
+\* the build() algorithm (validate, then clean up) refines the specification on every generated spec
+BuildAlgorithmCorrect ==
+  phase = "build" => AlgoRefinesSpec(bst.trans, bst.dflt, Mentioned(bst), 0..MaxChar, TRUE)
 =============================================================================
